@@ -34,7 +34,11 @@ CheckRep(t) ==
                               [n |-> t.keys[i], tfdt |-> t.serve[i].tfdt, next |-> t.serve[i + 1].tfdt])
                 /\ Report("C03_WellFormed", t.serve[i].wf = 1, t.keys[i]))
     /\ Report("C12_BeyondEnd404", C12_BeyondEnd404(rep, t.offset, t.beyond.n, [status |-> t.beyond.status]), t.beyond)
-Check(t) == IF t.ev = "mpd" THEN CheckMpd(t) ELSE IF t.ev = "rep" THEN CheckRep(t) ELSE TRUE
+\* a Representation listed inside a Period is media of that Period's stream ("play the right media"): a listed file that the
+\* Period's stream does not have cannot deliver any source segment
+Check(t) == IF t.ev = "mpd" THEN CheckMpd(t) ELSE IF t.ev = "rep" THEN CheckRep(t)
+            ELSE IF t.ev = "foreign_rep" THEN Report("C12_InitAndNumbersRetrievable", FALSE, [rep |-> t.rep, init |-> t.init])
+            ELSE TRUE
 TraceInit == l = 1
 TraceNext == l <= Len(TraceLog) /\ Check(TraceLog[l]) /\ l' = l + 1
 TraceSpec == TraceInit /\ [][TraceNext]_l
